@@ -120,7 +120,7 @@ Inductive cpc :=
   | CRelBuf                     (* ... ZSTDMT_releaseBuffer of a completed job *)
   | CWait (i : bool) | CWaitZ (i : bool)   (* ZSTDMT_waitForAllJobsCompleted (i: called from init, else from the error path) *)
   | CRelAll (i : bool) (k : nat)           (* ZSTDMT_releaseAllJobResources: at lock(bufPool) for slot k *)
-  | CInitBuf | CInitSeq         (* ZSTDMT_setBufferSize / ZSTDMT_setNbSeq inside ZSTDMT_initCStream_internal *)
+  | CInitBuf | CInitSeq         (* ZSTDMT_setBufferSize / ZSTDMT_setNbSeq (every frame since fix 97c340a) inside ZSTDMT_initCStream_internal *)
   | CDone.
 
 Record cloc := mkCl {
@@ -592,11 +592,20 @@ Definition caller_step (cfg : config) (w : nat) (s : state) : option state :=
       let need := need_cap cfg m in
       let m1 := mkMt 0 0 false false false 0 (if rcap m <? need then need else rcap m) false 0 0 0 0
                      (target m) (ptarget m) (cksum m) (ldm m) (rsync m) (hits m) (wsize m) 0 0 (fr m + 1) in
-      let s1 := set_sr (mkSer 0 [] false (s_w (sr s)) (s_lw (sr s))) (set_mt m1 s) in
-      if ldm m then Some (set_cpc CInitSeq s1) else Some (finish_op cfg s1 (ROk 0))
+      (* ZSTDMT_serialState_reset: a frame with LDM resets serial.nextJobID (and the checksum state) BEFORE ZSTDMT_setNbSeq, a frame
+         without LDM after it (the call sits in the else-branch at the top of the function since fix 97c340a) *)
+      let s1 := set_sr (if ldm m then mkSer 0 [] false (s_w (sr s)) (s_lw (sr s)) else sr s) (set_mt m1 s) in
+      Some (set_cpc CInitSeq s1)
   | CInitSeq =>
-      let s1 := set_sr (mkSer (s_next (sr s)) (s_log (sr s)) (s_skip (sr s)) win0 win0) (set_pl (pl_sp (sp_nb p) true p) s) in
-      Some (finish_op cfg s1 (ROk 0))
+      (* ZSTDMT_serialState_reset: ZSTDMT_setNbSeq in BOTH branches since fix 97c340a: a frame without LDM sets the buffer size of the
+         sequence pool to 0 (its jobs take no sequence buffer: ZSTDMT_getSeq returns the null store without locking) and leaves the LDM
+         windows alone, then resets serial.nextJobID and the checksum state; a frame with LDM sizes the pool and resets both windows *)
+      if ldm m then
+        let s1 := set_sr (mkSer (s_next (sr s)) (s_log (sr s)) (s_skip (sr s)) win0 win0) (set_pl (pl_sp (sp_nb p) true p) s) in
+        Some (finish_op cfg s1 (ROk 0))
+      else
+        let s1 := set_sr (mkSer 0 [] false (s_w (sr s)) (s_lw (sr s))) (set_pl (pl_sp (sp_nb p) false p) s) in
+        Some (finish_op cfg s1 (ROk 0))
   end.
 
 Definition worker_step (cfg : config) (t : nat) (s : state) : option state :=
